@@ -88,6 +88,7 @@ INDEX = {
    {"name": "VerifH26ParseConcrete", "quick": {"bounds": {}}},
    {"name": "VerifH26StringLiteral", "common": {"max_depth": 3000}, "quick": {"bounds": {"len": 2}}, "thorough": {"bounds": {"len": 3}}},
    {"name": "VerifH26UnicodeLiteral", "common": {"max_depth": 3000}, "quick": {"bounds": {}}},
+   {"name": "VerifH26Forward", "common": {"max_depth": 3000}, "quick": {"bounds": {"kinds": 4, "len": 1}}, "thorough": {"bounds": {"kinds": 4, "len": 2}}},
  ]},
  "C27": {"package": "./encoding/proto", "harnesses": [
    {"name": "VerifH27Messages", "common": {"max_depth": 3000}, "quick": {"bounds": {"strlen": 1, "slice": 1, "types": 12, "intclasses": 2}}, "thorough": {"bounds": {"strlen": 1, "slice": 2, "types": 12, "intclasses": 3}}},
